@@ -284,6 +284,15 @@ def generate(rng, tier):
             for (cy_, sy_) in ((ya, 1.0), (yb, -1.0)):
                 f_ = rng.choice([0.02, 0.05, 0.12, 0.25])
                 pts.append([cx_ + sx_ * f_ * mm * rng.uniform(0.5, 1.5), cy_ + sy_ * f_ * mm * rng.uniform(0.5, 1.5)])
+        # decisive points: on the diagonal of each corner square between the arc of the corner's OWN radius and the arc any OTHER corner's radius would
+        # give (a point at diagonal offset d is inside iff d >= (1 - 1/sqrt 2) r): a query that tells "the wrong corner radius was used"
+        eff = [min(abs(r_), mm) for r_ in rad]                     # top_left, top_right, bottom_right, bottom_left as the crate stores them
+        cs_ = [(xa, ya, 1.0, 1.0), (xb, ya, -1.0, 1.0), (xb, yb, -1.0, -1.0), (xa, yb, 1.0, -1.0)]
+        for ci_, (cx_, cy_, sx_, sy_) in enumerate(cs_):
+            for ro_ in eff:
+                if abs(ro_ - eff[ci_]) > 1e-2 * mm:
+                    d_ = 0.2928932188134524 * 0.5 * (ro_ + eff[ci_])
+                    pts.append([cx_ + sx_ * d_, cy_ + sy_ * d_])
         yield full('rrect', prr, 1e-9 * min(w, h), acc, pts, 'rounded-rect')
         yield closed_model('rrect', prr, pts, False)
         # the same shape and query points scaled by an exact power of two (nanometre / astronomical units): every closed form must scale with it
